@@ -83,7 +83,7 @@ func main() {
 
 // ---- start states --------------------------------------------------------------------------
 
-func boot() (gen, com, com2, warm *universe) {
+func boot() (gen, com, com2, warm, bnd, bndX *universe) {
 	if err := node.Boot(node.ForksAllOn, true); err != nil {
 		fmt.Fprintln(os.Stderr, "boot:", err)
 		os.Exit(3)
@@ -139,6 +139,36 @@ func boot() (gen, com, com2, warm *universe) {
 		addr:  []common.Address{H, T, E},
 		role:  []string{"hollow", "storage-only", "eoa"}, // T: FT-only holder = storage-only account
 		short: []string{"H", "T", "E"}}
+
+	// start state of the ERC20-binding slices: a token holder (externally owned account that
+	// holds 7*10^9 of the still unbound token in its own FT slot) and a contract; the binding
+	// account of the token does not exist.  Two universes over it: the token gets bound to the
+	// existing contract, or to an address that has no account.
+	P, C := mk(8), mk(9)
+	b3 := node.LatestState()
+	b3.SetNonce(P, 1)
+	b3.SetBalance(P, big.NewInt(20))
+	b3.SetFT(P, boundName, new(big.Int).Mul(big.NewInt(7), e9))
+	b3.SetNonce(C, 1)
+	b3.SetCode(C, codeVal(0))
+	b3.SetData(C, slotKey(1), dataVal(0))
+	root4, err := b3.Commit(true)
+	if err != nil {
+		fmt.Fprintln(os.Stderr, "commit start state:", err)
+		os.Exit(3)
+	}
+	ercKey = b3.GetERC20Key(P, bindPos)
+	N := common.GenerateERC20Binding(boundName)
+	bnd = &universe{name: "token-holder", root: root4, db: db,
+		addr:  []common.Address{P, C, N},
+		role:  []string{"eoa", "contract", "absent"},
+		short: []string{"P", "C", "N"},
+		bind:  &bindCfg{holder: 0, contract: 1, acct: 2}}
+	bndX = &universe{name: "token-holder-contract-absent", root: root4, db: db,
+		addr:  []common.Address{P, mk(10), N},
+		role:  []string{"eoa", "absent", "absent"},
+		short: []string{"P", "X", "N"},
+		bind:  &bindCfg{holder: 0, contract: 1, acct: 2}}
 
 	// third start state: the AccountDB object that committed the state is used on (as the
 	// node does with its latest state object): account objects stay cached, one of them
@@ -241,7 +271,7 @@ func deepOps(a int) []Op {
 // buildSlices: the explored space is the union of the slices; each slice is the set of ALL
 // valid histories up to its depth over its alphabet (the full alphabet to full depth is out
 // of reach: 60 letters).  Order = order of execution (a time cap cuts the tail).
-func buildSlices(thorough bool, gen, com, com2, warm *universe) []*slice {
+func buildSlices(thorough bool, gen, com, com2, warm, bnd, bndX *universe) []*slice {
 	var out []*slice
 	add := func(name string, u *universe, depth int, ft bool, ops []Op) {
 		out = append(out, &slice{name: u.name + "/" + name, u: u, ops: ops, depth: depth, ft: ft, keep: thorough})
@@ -261,6 +291,14 @@ func buildSlices(thorough bool, gen, com, com2, warm *universe) []*slice {
 			z := []Op{{K: kAddFT, A: a, V: 0}, {K: kSubFT, A: a, V: 0}, {K: kAddBalance, A: a, V: 0}, {K: kSubBalance, A: a, V: 0}}
 			out = append(out, &slice{name: u.name + "/touch-" + u.short[a], u: u, ops: cat(z, ctlOps()), depth: 6, ft: true, keep: true, commit: true})
 		}
+	}
+	// ERC20 binding of a non-native token (two decimal counts), FT writes and FT / binding
+	// queries on it for one holder: the binding decides where the balance lives
+	for _, u := range []*universe{bnd, bndX} {
+		y := []Op{{K: kBind, A: 1, V: 18}, {K: kBind, A: 1, V: 9},
+			{K: kSetFT, A: 0, S: 1, V: 5}, {K: kAddFT, A: 0, S: 1, V: 5}, {K: kSubFT, A: 0, S: 1, V: 5}, {K: kAddFT, A: 0, S: 1, V: 0},
+			{K: kGetFT, A: 0, S: 1}, {K: kGetBinding}}
+		add("binding", u, d(6, 7), false, cat(y, ctlOps()))
 	}
 	// exported FT mutators on a token name without binding (account's own storage, touch())
 	for _, u := range us {
@@ -415,6 +453,7 @@ type refRes struct {
 	rootKeep common.Hash
 	rootCom  common.Hash
 	obsCom   string
+	rootCont common.Hash
 }
 
 func (s *slice) ref(red []Op) *refRes {
@@ -429,6 +468,11 @@ func (s *slice) ref(red []Op) *refRes {
 		k := s.runImpl(red, modeKeep, false)
 		r.ok = r.ok && !k.panicked
 		r.rootKeep = k.root
+	}
+	if s.u.bind != nil {
+		k := s.runImpl(s.cont(red), modeCold, false)
+		r.ok = r.ok && !k.panicked
+		r.rootCont = k.root
 	}
 	if s.commit {
 		k := s.runImpl(red, modeCommit, false)
@@ -640,6 +684,18 @@ func (s *slice) eval(h []Op) *nodeRes {
 		// reported only where IntermediateRoot(true) agrees: otherwise it is the same difference twice
 		failRoot(s.explainRoot(h, red, modeKeep, m))
 	}
+	if s.u.bind != nil && !coldDiffers {
+		// the same continuation (one more FT write on the token) after both histories
+		hc, rc := s.cont(h), s.cont(red)
+		if cn := s.runImpl(hc, modeCold, false); !cn.panicked && cn.root != ref.rootCont {
+			mc := m.clone()
+			mc.apply(hc[len(hc)-1])
+			f, ok := s.explainRoot(hc, rc, modeCold, mc)
+			f.Detail = "continuation/" + f.Detail
+			f.Msg = "after one more " + hc[len(hc)-1].str(s.u) + ": " + f.Msg
+			failRoot(f, ok)
+		}
+	}
 	if s.commit && !coldDiffers {
 		if cm.root != ref.rootCom {
 			failRoot(s.explainRoot(h, red, modeCommit, m))
@@ -659,6 +715,11 @@ func (s *slice) eval(h []Op) *nodeRes {
 		}
 	}
 	return res
+}
+
+// cont appends the continuation call of the binding slices: one more FT write on the token.
+func (s *slice) cont(h []Op) []Op {
+	return append(append([]Op{}, h...), Op{K: kAddFT, A: s.u.bind.holder, S: 1, V: 1})
 }
 
 // explainRoot re-executes both histories and diffs the account tries leaf by leaf.
@@ -749,7 +810,7 @@ func (s *slice) explainRoot(h, red []Op, mode int, m *model) (f failure, flag bo
 				}
 				known := false
 				if ui >= 0 {
-					for _, si := range []int{1, 2, slotFT} {
+					for _, si := range []int{1, 2, slotFT, slotFTB, slotERC} {
 						if string(slotKey(si)) == k && bytes.Equal(m.Acct[ui].Store[si], l.Storage[k]) {
 							known = true
 						}
@@ -1061,8 +1122,8 @@ func (s *slice) step() {
 }
 
 func run(c *fw.Ctx) {
-	gen, com, com2, warm := boot()
-	slices := buildSlices(c.Thorough(), gen, com, com2, warm)
+	gen, com, com2, warm, bnd, bndX := boot()
+	slices := buildSlices(c.Thorough(), gen, com, com2, warm, bnd, bndX)
 	if only := os.Getenv("C04_ONLY"); only != "" { // development knob: restrict to slices whose name contains the string
 		var keep []*slice
 		for _, s := range slices {
@@ -1124,9 +1185,13 @@ func replay(c *fw.Ctx, raw json.RawMessage) {
 		fmt.Fprintln(os.Stderr, "bad case:", err)
 		os.Exit(2)
 	}
-	gen, com, com2, warm := boot()
+	gen, com, com2, warm, bnd, bndX := boot()
 	u := gen
 	switch k.Start {
+	case bnd.name:
+		u = bnd
+	case bndX.name:
+		u = bndX
 	case com2.name:
 		u = com2
 	case com.name:
